@@ -194,6 +194,9 @@ func c02main(c *Ctx) {
 	nestLogger.SetWriter(mon.New(nestLog, "N", mon.ShapePlain)).SetErrorWriter(mon.New(nestLog, "N", mon.ShapePlain)).SetLevel(slog.AlwaysLevel)
 	pool[4] = &reentrantWriter{inner: pool[4].(mon.W), nest: nestLogger}
 	verbs := c02verbs()
+	// two registered custom severities: one without and one with the error device
+	_ = slog.RegisterLevel(c02lvlPlain, "c02plain", slog.RegWithTreatedAsLevel(slog.InfoLevel))
+	_ = slog.RegisterLevel(c02lvlErr, "c02err", slog.RegWithTreatedAsLevel(slog.WarnLevel), slog.RegWithPrintToErrorDevice(true))
 	slog.AddFlags(slog.LnoInterrupt)
 	savedDefault := slog.Default()
 	c.Each(func(idx int, r *gen.R) {
@@ -274,7 +277,17 @@ func c02main(c *Ctx) {
 		L := gen.Pick(r, builtinLevels)
 		lg.SetLevel(L)
 		is.SetDebugMode(false)
-		if r.P(20) && L != slog.OffLevel {
+		deep := false
+		if r.P(6) && L != slog.OffLevel {
+			// a logger deep down a chain (every level with an attribute of its own)
+			for d := r.Range(7, 14); d > 0; d-- {
+				lg = lg.New(fmt.Sprintf("deep%d", d))
+				lg.Set(fmt.Sprintf("anc%d", d), d)
+			}
+			c.R.Add("calls_on_a_logger_seven_or_more_levels_down", 1)
+			deep = true
+		}
+		if (deep || r.P(20)) && L != slog.OffLevel {
 			lg = lg.New("kid")
 			// a child has no writers of its own: give it the same configuration
 			lg.SetWriter(pool[d.normal[0]])
@@ -299,7 +312,7 @@ func c02main(c *Ctx) {
 		vb := gen.Pick(r, verbs)
 		sev := vb.sev
 		if vb.any {
-			sev = gen.Pick(r, []slog.Level{slog.ErrorLevel, slog.WarnLevel, slog.InfoLevel, slog.DebugLevel, slog.TraceLevel, slog.AlwaysLevel, slog.OKLevel, slog.SuccessLevel, slog.FailLevel, slog.OffLevel, slog.Level(55), slog.Level(-1), slog.Level(-8), slog.Level(-1000), slog.Level(64), slog.Level(1 << 20)})
+			sev = gen.Pick(r, []slog.Level{slog.ErrorLevel, slog.WarnLevel, slog.InfoLevel, slog.DebugLevel, slog.TraceLevel, slog.AlwaysLevel, slog.OKLevel, slog.SuccessLevel, slog.FailLevel, slog.OffLevel, slog.Level(55), slog.Level(-1), slog.Level(-8), slog.Level(-1000), slog.Level(64), slog.Level(1 << 20), c02lvlPlain, c02lvlErr})
 		}
 		if vb.pkg {
 			slog.SetDefault(lg) // *Entry is a Logger the package functions know
@@ -399,7 +412,7 @@ func c02main(c *Ctx) {
 		}
 		evs := log.Events()
 		c.R.Add("write_events", int64(len(evs)))
-		treat := map[slog.Level]slog.Level{}
+		treat := map[slog.Level]slog.Level{c02lvlPlain: slog.InfoLevel, c02lvlErr: slog.WarnLevel}
 		for k, v := range builtinTreatAs {
 			treat[k] = v
 		}
@@ -408,7 +421,7 @@ func c02main(c *Ctx) {
 		var sel []int
 		if ws := d.perLevel[sev]; len(ws) > 0 {
 			sel = ws
-		} else if builtinErrorClass(sev) { // no custom level is registered in this process
+		} else if builtinErrorClass(sev) {
 			sel = d.errs
 		} else {
 			sel = d.normal
@@ -528,10 +541,15 @@ func wholeRecord(f Format, p []byte, id string, blank, testing bool) string {
 	return ""
 }
 
-// builtinErrorClass: the severities that go to the error writers when nothing is registered.
+const (
+	c02lvlPlain = slog.Level(70) // registered, no error device: normal writers
+	c02lvlErr   = slog.Level(71) // registered for the error device
+)
+
+// builtinErrorClass: the severities that go to the error writers in the C02 processes.
 func builtinErrorClass(l slog.Level) bool {
 	switch l {
-	case slog.PanicLevel, slog.FatalLevel, slog.ErrorLevel, slog.WarnLevel, slog.FailLevel:
+	case slog.PanicLevel, slog.FatalLevel, slog.ErrorLevel, slog.WarnLevel, slog.FailLevel, c02lvlErr:
 		return true
 	}
 	return false
